@@ -40,6 +40,11 @@ BASE_SPEC = [
         ('plate', 'req', {'type': 'str', 'unique': True}),
         ('seats', 'opt', {'type': 'int'}),
     ], {}),
+    # written through raw SQL inside sessions (db.insert / db.execute): part of the same transaction (C17)
+    ('Log', [
+        ('id', 'pk', {'type': 'int', 'auto': True}),
+        ('msg', 'req', {'type': 'str'}),
+    ], {}),
 ]
 
 VARIANTS = ('base', 'passport_cascade', 'group_cascade', 'passport_optional', 'car_optional', 'car_nocascade',
@@ -100,6 +105,7 @@ POOLS = {
     ('Course', 'credits'): [1, 2, 3],
     ('Car', 'plate'): ['pl1', 'pl2', 'pl3', 'pl4'],
     ('Car', 'seats'): [None, 2, 4],
+    ('Log', 'msg'): ['l1', 'l2', 'l3'],
 }
 
 
